@@ -123,6 +123,9 @@ def payload_of(case):
     base = case["base"]
     if base[0] == "hex":
         data = bytearray(bytes.fromhex(base[1]))
+    elif base[0] == "fill":
+        # ["fill", nbytes]: valid text of exactly nbytes bytes, three-byte characters throughout (padded with "a")
+        data = bytearray(("\u20ac" * (base[1] // 3)).encode("utf-8") + b"a" * (base[1] % 3))
     else:
         data = bytearray(build.expand_text(base).encode("utf-8"))
     for pos, what in case.get("edits", []):
@@ -210,7 +213,26 @@ class C05(Prop):
                         for frag, seg in (([], "whole"), ([1], "whole"), ([0, 2], "bytewise")):
                             yield {"base": ["str", text], "edits": [], "frag": frag, "inter": [], "carriage": carriage,
                                    "seg": seg, "before": []}
+        def length_classes():
+            # every frame length class (7-bit, 16-bit and 64-bit length forms and their borders): valid text whole and
+            # with the first fragment of that length ending inside a character; one invalid byte first / middle / last
+            # (layer 3 then checks it is reported as soon as it has arrived, however long the frame)
+            sizes = [125, 126, 127, 65535, 65536, 65537, 70000, 131072]
+            for carriage in ("plain", "deflate_uncompressed"):
+                for n in sizes:
+                    yield {"base": ["fill", n], "edits": [], "frag": [], "inter": [], "carriage": carriage, "seg": "whole",
+                           "before": []}
+                    for pos in (0, n // 2, n - 1):
+                        yield {"base": ["fill", n], "edits": [[pos, ["set", 0xff]]], "frag": [], "inter": [],
+                               "carriage": carriage, "seg": "whole", "before": ["text"]}
+                    for tail in (2, 11):
+                        yield {"base": ["fill", n + tail], "edits": [], "frag": [n], "inter": [[0, "ping"]][:tail % 2],
+                               "carriage": carriage, "seg": "whole", "before": []}
+                        for pos in (n - 1, n + 1):
+                            yield {"base": ["fill", n + tail], "edits": [[pos, ["set", 0xc0]]], "frag": [n], "inter": [],
+                                   "carriage": carriage, "seg": "whole", "before": []}
         return [Enumeration("validator_automaton", groups, exhaustive=True), after_every_prelude(battery),
+                Enumeration("frame_length_classes", length_classes, exhaustive=True),
                 with_noise(battery), with_companion(battery),
                 Enumeration("special_code_points_exact_decoding", special_code_points, exhaustive=True)]
 
